@@ -23,7 +23,8 @@ RULE = ("exhaustive: integer series x = sorted subsets of {0..7} (2..6 points qu
         "left < right on the half-integer lattice -1..8.5, through process.truncate; random: series 2..60 points x "
         "bounds {on samples (first, last, interior), inside gaps, outside either end, ratios} x {function, Weaver "
         "fresh, Weaver after recreate (reference and working differ)}, slices with start/stop on samples or omitted "
-        "and step 1..4, index ranges. non-trivial: the selected run is a proper sub-range; distinct by case.")
+        "and step 1..4, index ranges. non-trivial: the selected run is a proper sub-range; distinct by case."
+        " Also: Weaver requests after random domain histories, an index cut after resampling so that working and reference span different ranges, bounds passed as 0-d / 1-element arrays (must be left untouched), documented defaults by omission.")
 REQUIRED_MONITORS = ["c11:truncate", "c11:weaver_truncate", "c11:slice_by_value", "c11:slice_by_index",
                      "c11:truncate_by_index"]
 ASSUMPTIONS = ["left < right; slicing values are samples of x; index bounds within 0..len (other inputs belong to C20)"]
